@@ -60,6 +60,22 @@ def rand_caxes(rng, nd, shuffle=True):
     return [int(v) for v in c]
 
 
+def noncontiguous(rng, d):
+    """same values, different memory layout: Fortran order, a transposed view, or a strided view of a larger array"""
+    r = rng.random()
+    if d.ndim < 2 or r < 0.5:
+        if d.ndim >= 1 and r < 0.15:
+            big = np.zeros(d.shape[:-1] + (2 * d.shape[-1],), dtype=d.dtype)
+            big[..., ::2] = d
+            return big[..., ::2]
+        return d
+    if r < 0.75:
+        return np.asfortranarray(d)
+    perm = rng.permutation(d.ndim)
+    inv = np.argsort(perm)
+    return np.ascontiguousarray(d.transpose(perm)).transpose(inv)
+
+
 def leg_a_build(ctx, rng, n):
     import sparse
 
@@ -105,6 +121,7 @@ def leg_a_convert(ctx, rng, n):
         shp = gen.shape(rng, 0, 4)
         fill = int(rng.choice([0, 0, 2, -1]))
         d = gen.dense(rng, shp, fill)
+        d = noncontiguous(rng, d)
         x = sparse.COO.from_numpy(d, fill_value=fill)
         # from_dense
         reqs.append(["from_dense", list(shp), [int(v) for v in d.ravel()], fill])
@@ -172,7 +189,14 @@ def leg_c(ctx, rng, n):
         if np.dtype(dt).kind == "f" and rng.random() < 0.3:
             fill = dt(np.nan) if rng.random() < 0.5 else dt(np.inf)
             d = np.where(rng.random(size=shp) < 0.5, fill, d).astype(dt)
+        d = noncontiguous(rng, d)
+        idt = None
+        if len(shp) and rng.random() < 0.3:
+            cands = [t for t in (np.uint8, np.int8, np.int16, np.uint16) if max(shp) <= np.iinfo(t).max]
+            idt = cands[int(rng.integers(len(cands)))] if cands else None
         x = sparse.COO.from_numpy(d, fill_value=fill)
+        if idt is not None:  # (from_numpy(idx_dtype=...) goes through a flattened array and rejects sizes the dtype cannot hold)
+            x = sparse.COO(x.coords.astype(idt), x.data, shape=x.shape, fill_value=fill, sorted=True, has_duplicates=False)
         cur = x
         chain = []
         ok = True
@@ -250,6 +274,40 @@ def leg_c(ctx, rng, n):
             core.log(f"C05 leg C {k}/{n}")
 
 
+def leg_c_narrow(ctx, rng, n):
+    """more stored elements than the coordinate dtype can count, every extent still fitting it"""
+    import sparse
+
+    for _ in range(n):
+        shp, idt = [((20, 20), np.uint8), ((6, 6, 6), np.int8), ((16, 17), np.uint8), ((12, 12), np.int8), ((3, 90), np.uint8), ((130, 2), np.uint8)][int(rng.integers(6))]
+        d = gen.dense(rng, shp, 0, density=float(rng.choice([0.8, 1.0])), lo=1, hi=4)
+        x = sparse.COO.from_numpy(d)
+        x = sparse.COO(x.coords.astype(idt), x.data, shape=x.shape, sorted=True, has_duplicates=False)
+        chain = []
+        cur = x
+        for _ in range(int(rng.integers(1, 4))):
+            f = str(rng.choice(["gcxs", "coo", "dok", "csr" if len(shp) == 2 else "gcxs"]))
+            case = {"shape": list(shp), "idx_dtype": np.dtype(idt).name, "nnz": int(x.nnz), "chain": chain + [f]}
+            ctx.case("C:narrow-index-chain", case)
+            try:
+                if f == "gcxs":
+                    ca = rand_caxes(rng, len(shp), shuffle=False)
+                    cur = cur.asformat("gcxs", compressed_axes=None if ca is None else tuple(ca))
+                else:
+                    cur = cur.asformat(f)
+                dd = cur.todense()
+                msg = None if (dd.shape == d.shape and np.array_equal(dd, d)) else "values differ after conversion"
+                msg = msg or impl.canonical_problem(cur)
+            except ValueError as e:
+                msg = None if "dtype" in str(e) or "cast" in str(e) else f"raised ValueError: {e}"
+            except Exception as e:  # noqa: BLE001
+                msg = f"conversion to {f} raised {type(e).__name__}: {str(e)[:120]}"
+            if msg:
+                ctx.fail("C", "narrow-index-chain", case, msg, finding=findings.classify(PID, "narrow-index-chain", case, msg))
+                break
+            chain.append(f)
+
+
 def run(ctx):
     ctx.trusted = TRUSTED
     ctx.assumptions = ["values are small integers on the model legs; dtype/NaN/inf fills only on the NumPy leg"]
@@ -258,6 +316,7 @@ def run(ctx):
     leg_a_build(ctx, rng, 400 if ctx.quick else 4000)
     leg_a_convert(ctx, rng, 300 if ctx.quick else 3000)
     leg_c(ctx, rng, 200 if ctx.quick else 2500)
+    leg_c_narrow(ctx, rng, 40 if ctx.quick else 400)
     ctx.cov["rule"] = ("leg A: constructor flag combinations on unsorted/duplicated coordinates; random conversion chains (length<=6) over "
                        "COO/GCXS(every compressed axes, any order)/DOK/dense compared step by step on representation; leg C: chains incl. "
                        "CSR/CSC/scipy over 7 dtypes and NaN/inf fills vs the original dense array; constructors from coords/dict/pairs; "
